@@ -4,6 +4,9 @@ use serde_json::Value;
 
 use crate::runner::{DynProp, Session, Tier};
 
+pub mod c01;
+pub mod c02;
+pub mod c03;
 pub mod c04;
 pub mod c05;
 pub mod c06;
@@ -32,7 +35,7 @@ pub fn no_custom(_: &mut Session, _: &Value) -> bool {
 }
 
 pub fn all() -> Vec<PropertyDef> {
-    vec![c04::def(), c05::def(), c06::def(), c07::def(), c08::def(), c09::def(), c13::def(), c14::def(), c20::def()]
+    vec![c01::def(), c02::def(), c03::def(), c04::def(), c05::def(), c06::def(), c07::def(), c08::def(), c09::def(), c13::def(), c14::def(), c20::def()]
 }
 
 pub fn find(id: &str) -> Option<PropertyDef> {
